@@ -46,6 +46,11 @@ ASSUMPTIONS = [
     "merge_lanelets (which identifies lanelets by id) misreads the links (may raise or append at the wrong end); the model predicts "
     "this (mergeChain), the property sentence (two lanelets in successor relation) does not cover it: compared, not judged. Same for a "
     "predecessor that is also a successor of the start (closed ring)",
+    "aliasing: every array / list RETURNED BY A COMPUTATION (interpolate_position points, the merged lanelet's vertices and distance, "
+    "merged route lanelets, route paths) is modified in place by the harness and the lanelet / inputs / network / later answers are "
+    "observed again. The attribute getters distance, inner_distance, center/left/right_vertices, successor, predecessor hand out the "
+    "object's own array / list by design (they have setters; distance is the cache itself): modifying those in place is editing the "
+    "lanelet and is outside the quantifier, as is the merged lanelet sharing its predecessor / successor LIST objects with its inputs",
     "the exhaustive stream enumerates every labelled digraph without self-successors on <= 3 (quick) / <= 4 (thorough) nodes",
 ]
 TRUSTED = ["C20: termination of the real route functions is observed through a call budget on LaneletNetwork.find_lanelet_by_id "
@@ -64,7 +69,10 @@ REQUIRED_BUCKETS = ["poly", "poly3d", "poly/s=0", "poly/s=length", "poly/s=verte
                     "lanhist/set_center_same", "lanhist/translate", "lanhist/deepcopy", "lanhist/pickle", "lanhist/inplace_before_query",
                     "mergechain", "mergechain/tree", "mergechain/ring", "mergechain/chain>=3", "mergechain/range-default-arg",
                     "net/decor", "net/duplicate-links", "net/range-type-int", "net/range-type-npint", "net/range-type-np64",
-                    "net/range-type-inf", "net/range-type-default", "net/range-type-keyword"]
+                    "net/range-type-inf", "net/range-type-default", "net/range-type-keyword",
+                    # results must not alias state: returned arrays / lists modified in place, then re-observed
+                    "alias/interp-result-modified", "alias/interp-at-vertex", "alias/merge-result-modified",
+                    "alias/routes-result-modified", "alias/mergechain-result-modified"]
 REQUIRED_BUCKETS += ["net/via-" + v for v in ("add_lanelet", "add_lanelet_rtree", "from_list", "from_list_cleanup", "from_network",
                                               "add_from_network", "scenario_network", "scenario_lanelets")]
 REQUIRED_BUCKETS += ["net/pre-" + q for q in ("lanelets", "lanelet_polygons", "find_by_position", "distances", "polygons", "deepcopy",
@@ -821,6 +829,57 @@ def observe_poly(ctx, case, lan):
         ctx.excluded += 1     # the property quantifies over polylines with distinct consecutive vertices
         return
     oracle_poly(ctx, case, lan, d, sfl, impl)
+    alias_pass(ctx, case, lan, [sv for sv in sfl if 0 <= sv <= d[-1]])
+
+
+def alias_pass(ctx, case, lan, sfl):
+    """Results of queries must not alias the lanelet's state: every array interpolate_position returns is modified IN PLACE by the
+    caller (as in `pos += lateral_offset`), then the lanelet is observed again — its vertices, its distance, and the answers
+    of the same queries.  (The property sentence holds for every query, also the second one on the same lanelet.)"""
+    import numpy as np
+    names = ("center_vertices", "right_vertices", "left_vertices")
+    snap = {k: np.array(getattr(lan, k), dtype=float, copy=True) for k in names}
+    dsnap = np.array(lan.distance, dtype=float, copy=True)
+    first = [call(lan.interpolate_position, s) for s in sfl]
+    vals = [[np.array(a, dtype=float, copy=True) for a in r[1][:3]] + [int(r[1][3])] if r[0] == "ok" else None for r in first]
+    touched = False
+    for r in first:
+        if r[0] != "ok":
+            continue
+        for a in r[1][:3]:
+            if isinstance(a, np.ndarray):
+                try:
+                    a += 1000.25
+                    touched = True
+                except (ValueError, TypeError):
+                    pass            # a read-only result cannot be modified by the caller: fine
+    if not touched:
+        return
+    ctx.tag("alias/interp-result-modified")
+    if any(float(s) in set(dsnap.tolist()) for s, r in zip(sfl, first) if r[0] == "ok"):
+        ctx.tag("alias/interp-at-vertex")
+    for k in names:
+        now = np.array(getattr(lan, k), dtype=float)
+        if now.shape != snap[k].shape or not np.array_equal(now, snap[k], equal_nan=True):
+            ctx.fail(f"C20/interpolate_position/lanelet-{k}-changed-by-modifying-a-result",
+                     f"after the caller modified the arrays interpolate_position returned (in place), {k} of the lanelet changed", case)
+            return
+    dn = np.array(lan.distance, dtype=float)
+    if dn.shape != dsnap.shape or not np.array_equal(dn, dsnap, equal_nan=True):
+        ctx.fail("C20/interpolate_position/distance-changed-by-modifying-a-result",
+                 "after the caller modified the arrays interpolate_position returned (in place), the lanelet's distance changed", case)
+        return
+    for s, v in zip(sfl, vals):
+        r2 = call(lan.interpolate_position, s)
+        if v is None:
+            continue
+        same = r2[0] == "ok" and int(r2[1][3]) == v[3] and all(
+            np.array_equal(np.array(b, dtype=float), a, equal_nan=True) for a, b in zip(v[:3], r2[1][:3]))
+        if not same:
+            ctx.fail("C20/interpolate_position/answer-changes-after-an-earlier-result-was-modified",
+                     f"interpolate_position({s}) answered {[x.tolist() for x in v[:3]]}; after the caller modified earlier results in "
+                     f"place the same call answers {[np.array(b).tolist() for b in r2[1][:3]] if r2[0] == 'ok' else r2[1]}", case)
+            return
 
 
 def oracle_poly(ctx, case, lan, d, sfl, impl, extra_tol=None):
@@ -919,6 +978,7 @@ def run_polyfloat(ctx, case):
     impl = [canon_interp(call(lan.interpolate_position, s)) for s in sfl]
     # the exact centre length may be a hair below the float sum: the oracle skips s beyond the exact length
     oracle_poly(ctx, case, lan, d, sfl, impl)
+    alias_pass(ctx, case, lan, sfl)
 
 
 # ------------------------------------------------------------------------------------------------ merge
@@ -956,6 +1016,26 @@ def run_merge(ctx, case, objs=None):
     model = ctx.driver.ask("C20", "merge", {"l1": strip(l1), "l2": strip(l2)})
     ctx.compare(case, impl, model, "Lanelet.merge_lanelets vs CR.Arc.mergeLanelets")
     if res[0] == "ok":
+        # the caller modifies the merged lanelet's arrays in place: the two inputs must not change (no shared arrays)
+        names = ("left_vertices", "center_vertices", "right_vertices")
+        snap = [{k: np.array(getattr(x, k), dtype=float, copy=True) for k in names} for x in (a, b)]
+        dsn = [np.array(x.distance, dtype=float, copy=True) for x in (a, b)]
+        res2 = call(Lanelet.merge_lanelets, a, b)        # a second result: the first one stays untouched for the oracle below
+        if res2[0] == "ok":
+            m2 = res2[1]
+            for arr in [getattr(m2, k) for k in names] + [m2.distance]:
+                try:
+                    arr += 1000.25
+                except (ValueError, TypeError):
+                    pass
+            ctx.tag("alias/merge-result-modified")
+        for x, sn, dd, nm in zip((a, b), snap, dsn, ("first", "second")):
+            if any(not np.array_equal(np.array(getattr(x, k), dtype=float), sn[k]) for k in names) or \
+                    not np.array_equal(np.array(x.distance, dtype=float), dd):
+                ctx.fail("C20/merge_lanelets/input-changed-by-modifying-the-merged-lanelet",
+                         f"after the caller modified the merged lanelet's vertex / distance arrays in place the {nm} argument's "
+                         f"vertices or distance changed", {"kind": "merge", "l1": l1, "l2": l2})
+                return
         # the same two objects merged a second time (object reuse): same answer
         res2 = call(Lanelet.merge_lanelets, a, b)
         ctx.tag("merge/repeated-call")
@@ -1291,8 +1371,23 @@ def observe_routes(ctx, case, net, counter, queries, rnd):
                     else:
                         out = getattr(start_lan, fname)(net, typed_range(mx, t))
                     signal.setitimer(signal.ITIMER_REAL, 0)
+                    raw = out
                     out = [[int(v) for v in p] for p in out]
                     row.append({"ok": out})
+                    if len(impl) < 2 and isinstance(raw, list):
+                        # the caller modifies the returned lists in place; the network and a repeated query must not change
+                        for p_ in raw:
+                            if isinstance(p_, list):
+                                p_.append(10 ** 6)
+                                p_.reverse()
+                        raw.append([10 ** 6])
+                        ctx.tag("alias/routes-result-modified")
+                        counter["calls"] = 0
+                        again = call(getattr(start_lan, fname), net, float(mx))
+                        if read_graph(net) != nodes or again[0] != "ok" or [[int(v) for v in p_] for p_ in again[1]] != out:
+                            ctx.fail(f"C20/{fname}/changes-after-the-returned-paths-were-modified",
+                                     f"{fname}(start={st}, max_length={float(mx)}) returned {out}; after the caller modified the returned "
+                                     f"lists in place the network's links or the answer of the same call changed", sub)
                     if not dangling and not selfloop:
                         check_routes(ctx, fname, nbr, lens, st, mx, out, sub)
                     acc_hit = any(sum((lens[v] for v in p[:j]), Fraction(0)) == mx for p in out for j in range(1, len(p) + 1))
@@ -1683,6 +1778,7 @@ def run_mergechain(ctx, case):
             if len(merged) != len(jobs):
                 ctx.fail(f"{key}/merged-count", f"{len(merged)} merged lanelets for {len(jobs)} merge jobs", sub)
                 continue
+            canon_parts = {i: canon_lanelet(net.find_lanelet_by_id(i)) for i in lds}
             for m, job in zip(merged, jobs):
                 if len(job) >= 3:
                     ctx.tag("mergechain/chain>=3")
@@ -1716,6 +1812,24 @@ def run_mergechain(ctx, case):
                     lm, ls = float(m.distance[-1]), sum(partlen[i] for i in job)
                     if abs(lm - ls) > TOL * (1 + abs(ls)):
                         ctx.fail(f"{key}/length-not-sum", f"job {job}: merged length {lm}, parts sum to {ls}", sub)
+            # the caller modifies the merged route lanelets' arrays in place: the lanelets of the network must not change
+            import numpy as np
+            hit = False
+            for m, job in zip(merged, jobs):
+                if len(job) < 2:
+                    continue        # no successor: the start lanelet itself is returned (by design the same object)
+                _ = m.distance
+                for arr in (m.left_vertices, m.center_vertices, m.right_vertices, m.distance):
+                    try:
+                        arr += 1000.25
+                        hit = True
+                    except (ValueError, TypeError):
+                        pass
+            if hit:
+                ctx.tag("alias/mergechain-result-modified")
+                if {i: canon_lanelet(net.find_lanelet_by_id(i)) for i in lds} != canon_parts:
+                    ctx.fail(f"{key}/network-lanelet-changed-by-modifying-a-merged-lanelet",
+                             f"start {st}: after the caller modified the merged lanelets' arrays in place a lanelet of the network changed", sub)
 
 
 # ------------------------------------------------------------------------------------------------ entry points
